@@ -37,8 +37,8 @@ def parsePairs : List String → Option (List (Nat × Nat))
 def parseKind : List String → Option Kind
   | ["transfer", to, v] => do some (.transfer (← to.toNat?) (← parseInt? v))
   | ["vote", c] => do some (.vote (← c.toNat?))
-  | ["register", amt, unreg, inc] => do some (.register (← parseInt? amt) ((← unreg.toNat?) == 1) (← inc.toNat?))
-  | "setsigners" :: tg :: "-" :: rest => do some (.setSigners (← tg.toNat?) (← parsePairs rest))
+  | ["register", amt, flag, inc, nd] => do some (.register (← parseInt? amt) (← flag.toNat?) (← inc.toNat?) ((← nd.toNat?) == 1))
+  | "setsigners" :: tg :: tok :: "-" :: rest => do some (.setSigners (← tg.toNat?) (← parsePairs rest) ((← tok.toNat?) == 1))
   | ["box", _] => some .box
   | ["other"] => some .other
   | _ => none
